@@ -6,10 +6,12 @@ MODULES = ["AdaptiveProofs.Props.C05"]
 
 def run(ctx):
     return rc.run_check(
-        ctx, MODULES, [("c05", rc.oracle_c05)], faults=False,
+        ctx, MODULES, [("c05", rc.oracle_c05)], faults=False, real_async=True,
         explanation="Runner.lean models BaseRunner bookkeeping and both run loops with learner/goal/executor as the "
                     "environment; Props/C05.lean proves legal tells, the in-flight bound and refill, and the clean exit for "
-                    "every event list; the real runners are driven by deterministic schedules and compared call by call")
+                    "every event list; the real runners are driven by deterministic schedules and compared call by call; "
+                    "in addition AsyncRunner runs coroutine functions that need several loop iterations to unwind on a real event "
+                    "loop (goal stop and cancellation at any yield): when it has stopped nothing it started is still running")
 
 
 def replay(ctx, path):
